@@ -12,12 +12,14 @@ PID = "C14"
 MANIFEST = {
     "text": "Coq theorems over the transcribed built-ins (sort/sort_by permutation+stability+sortedness, unique, "
             "reverse, concat, flatten/chunk, zip, slice/head/tail, range, keys/values/entries, group_by/count_by "
-            "partition, join/split, indexing, field access, spreading, string/character consistency, no panic in "
+            "partition, count_by's counter exact for every n < 2^53 (C14_count_num_exact, Flocq Bplus_correct), join/split, indexing, field access, spreading, string/character consistency, no panic in "
             "range/sort), model tied to the code by the BUILTIN and EVAL correspondence streams "
             "and by the laws re-evaluated on the implementation's own serialised results",
     "note": "trusted: Coq kernel + vm_compute; hand transcription of 26 built-in arms and of the Access/DotAccess/"
             "Spread arms and of the repo's own stable merge sort (validated by correspondence every run); "
-            "str::split/replace/contains as naive search, str::trim/to_uppercase/to_lowercase and f64 Display as oracles",
+            "str::split/replace/contains as naive search, str::trim/to_uppercase/to_lowercase and f64 Display as oracles; "
+            "C14_count_num_exact and C14_count_by_counts_exact alone use Flocq's real-number layer (the four "
+            "allow-listed classical axioms)",
     "design_ref": "notes/C14.md (DESIGN.md section 6 C14)",
 }
 REQS = ["Blots.Num", "Blots.gen.Builtins", "Blots.Ast", "Blots.Value", "Blots.Outcome", "Blots.Show",
